@@ -591,6 +591,7 @@ func TestC03(t *testing.T) {
 	// one observed delivery
 	type obs struct {
 		typ, sc              string
+		depth                int // MsgExec layers around the message (x / wx scenarios)
 		txSigner             int
 		metaSigners          []int
 		creator              int
@@ -650,7 +651,11 @@ func TestC03(t *testing.T) {
 		if len(o.redirected) > 0 {
 			red = strings.Join(o.redirected, ",")
 		}
-		line := fmt.Sprintf("tx %s %s %s %s %d %s %s %d %s %s %d", o.typ, o.sc, c03Ids(o.txSigner), c03Ids(o.metaSigners...), o.creator, o.authf,
+		scTok := o.sc
+		if o.depth > 0 {
+			scTok = fmt.Sprintf("%s@%d", o.sc, o.depth)
+		}
+		line := fmt.Sprintf("tx %s %s %s %s %d %s %s %d %s %s %d", o.typ, scTok, c03Ids(o.txSigner), c03Ids(o.metaSigners...), o.creator, o.authf,
 			grantTok(), o.victim, red, h, chgLvl)
 		resTok := "rej"
 		if ok {
@@ -1048,7 +1053,11 @@ func TestC03(t *testing.T) {
 				}
 				grants[[2]int{B.pid, A.pid}] = true
 			}
-			depth := 1 + r.Rng.Intn(2)
+			// wrapped once or twice, or around and beyond the depth to which the decorator unfolds wrappers (6): whatever it
+			// does with very deep nesting, it must not let the innermost message through unchecked
+			depth := []int{1, 1, 2, 2, 5, 6, 7, 8, 12}[r.Rng.Intn(9)]
+			r.Stat(fmt.Sprintf("exec-depth.%d", depth))
+			o.depth = depth
 			deliver = func() FATxResult {
 				ZooSetMeta(msg, who.acc.Addr.String(), A.acc.Addr.String())
 				var inner sdk.Msg = msg
@@ -1071,8 +1080,9 @@ func TestC03(t *testing.T) {
 			}
 			wdepth := 0
 			if strings.HasPrefix(sc, "wx") {
-				wdepth = 1 + r.Rng.Intn(2)
+				wdepth = []int{1, 1, 2, 2, 5, 6, 7, 8, 12}[r.Rng.Intn(9)]
 			}
+			o.depth = wdepth
 			msg = m.Build(w, who.acc, r.Rng, hostile)
 			o.creator = who.pid
 			deliver = func() FATxResult {
@@ -1100,7 +1110,7 @@ func TestC03(t *testing.T) {
 					res.Code, res.Log = 1, fmt.Sprint(herr, derr)
 					// the creator gate of the wasm message router plays the part of the ante decorator here: a
 					// message it let through (and the handler then refused) counts as "passed"
-					if !strings.Contains(res.Log, "cannot dispatch a message created by") {
+					if !strings.Contains(res.Log, "cannot dispatch a message created by") && !strings.Contains(res.Log, "nested too deeply") && wdepth <= 6 {
 						res.Events = []abci.Event{{Type: "verif-passed-the-creator-gate"}}
 					}
 				}
